@@ -177,6 +177,18 @@ class Tuple(Ty):
         return out
 
 
+class Struct(Tuple):
+    """A dict literal with constant string keys, used as a record (e.g. the JSON document a renderer returns)."""
+    kind = "Struct"
+
+    def __init__(self, **fields):
+        self.names = list(fields.keys())
+        self.ts = list(fields.values())
+
+    def sig(self):
+        return "Struct[" + ",".join(f"{n}:{t.sig()}" for n, t in zip(self.names, self.ts)) + "]"
+
+
 class Fn(Ty):
     """A callable parameter assumed pure: application is an uninterpreted function."""
     kind = "Fn"
@@ -290,7 +302,7 @@ class TypeErr(Exception):
 
 def coerce(v: V, ty: Ty) -> V:
     """Coerce value to declared type (numeric widening, None/T -> Opt[T])."""
-    if v.ty == ty:
+    if v.ty == ty and not isinstance(ty, (List, Dict)):
         return v
     if ty is Real and v.ty is Int:
         return mk_real(v.t)
@@ -306,6 +318,11 @@ def coerce(v: V, ty: Ty) -> V:
             return V(ty, [v.terms[0]] + inner.terms)
         inner = coerce(v, ty.t)
         return V(ty, [z3.BoolVal(False)] + inner.terms)
+    if isinstance(ty, Struct) and isinstance(v.ty, Struct) and ty.names == v.ty.names:
+        out = []
+        for sub, t in zip(tuple_items(v), ty.ts):
+            out += coerce(sub, t).terms
+        return V(ty, out)
     if isinstance(ty, Tuple) and isinstance(v.ty, Tuple) and len(ty.ts) == len(v.ty.ts):
         out = []
         for sub, t in zip(tuple_items(v), ty.ts):
